@@ -291,7 +291,12 @@ func handleMethod(svr interface{}, serviceName string, desc *grpc.MethodDesc, un
 		toHeaders(sts.GetHeaders(), w.Header(), "")
 		toHeaders(sts.GetTrailers(), w.Header(), "X-GRPC-Trailer-")
 		if err != nil {
-			st, _ := status.FromError(err)
+			st, ok := status.FromError(err)
+			if !ok {
+				// not a status: report context errors with their own
+				// codes, like a gRPC server does
+				st = status.FromContextError(err)
+			}
 			if st.Code() == codes.OK {
 				// preserve all error details, but rewrite the code since we don't want
 				// to send back a non-error status when we know an error occured
@@ -388,7 +393,12 @@ func handleStream(svr interface{}, serviceName string, desc *grpc.StreamDesc, st
 			Metadata: asTrailerProto(metadata.Join(str.tr...)),
 		}
 		if err != nil {
-			st, _ := status.FromError(err)
+			st, ok := status.FromError(err)
+			if !ok {
+				// not a status: report context errors with their own
+				// codes, like a gRPC server does
+				st = status.FromContextError(err)
+			}
 			if st.Code() == codes.OK {
 				// preserve all error details, but rewrite the code since we don't want
 				// to send back a non-error status when we know an error occured
